@@ -297,8 +297,11 @@ def run_builder_chunk(e, V, log, counters):
             "epochs0": [[0, 1, 1]], "script": [], "via": "builder"}
     ker = W.ProbeKernel(0, plan["kernels"][0]["keys"])
     b = gs.EngineBuilder(seed=e["seed"], num_chains=C)
-    b.set_duration(warmup_duration=e["warm"], posterior_duration=e["post"], term_duration=e["term"],
-                   thinning_posterior=e["tp"], thinning_warmup=e["tw"])
+    try:
+        b.set_duration(warmup_duration=e["warm"], posterior_duration=e["post"], term_duration=e["term"],
+                       thinning_posterior=e["tp"], thinning_warmup=e["tw"])
+    except Exception as ex:
+        raise SutError(f"set_duration|{type(ex).__name__}|?|set_duration({e}) with admissible arguments raised: {ex}") from ex
     b.set_model(gs.DictInterface(lambda s: jnp.float32(0.0)))
     b.set_initial_values(W.initial_state(plan, 0))
     b.add_kernel(ker)
